@@ -1,2 +1,52 @@
-(** C01 - placeholder *)
-From VG Require Import Model.Serve.
+(** C01 - Messages arrive intact across every protocol, codec and compression pairing.
+    Statements only; proofs in Proofs/PipelineProofs.v, Proofs/ReaderProofs.v.
+
+    The codec and compression libraries are parameters ([oracles] on the sending side, the
+    receiving side's decoder and decompressor as section variables); the theorems hold for every
+    library that satisfies the two round-trip laws stated as hypotheses.  The correspondence suites
+    instantiate them with the real codecs and gzip (tables of the values that occur). *)
+From VG Require Import Model.Bytes Model.Stream Model.Envelope Model.Reader.
+From VG Require Import Proofs.StreamProofs Proofs.ReaderProofs Proofs.PipelineProofs.
+Open Scope Z_scope.
+
+(** Re-encoding path: whatever the backend decodes is the message the client encoded. *)
+Theorem C01_reencoded_request_is_faithful :
+  forall (msg_of_server gunzip_server : bytes -> option bytes) (cx : rctx) (o : oracles),
+  (forall m e, o_encode o m = Some e -> msg_of_server e = Some m) ->
+  (forall b, gunzip_server (o_compress o b) = Some b) ->
+  forall was_compressed payload out,
+  same_codec cx = false ->
+  advance_send cx o was_compressed payload = inl out ->
+  exists m, client_meant cx o was_compressed payload = Some m /\
+            server_reads msg_of_server gunzip_server ((was_compressed || must_compress cx) && server_comp cx) out = Some m.
+Proof. intros. eapply reencoded_request_is_faithful; eauto. Qed.
+Print Assumptions C01_reencoded_request_is_faithful.
+
+(** Same codec: the payload is relayed byte for byte, or only its compression changes. *)
+Theorem C01_relayed_request_is_verbatim : forall cx o was_compressed payload out,
+  same_codec cx = true -> advance_send cx o was_compressed payload = inl out ->
+  out = payload \/
+  exists plain, (plain = payload \/ o_decompress o payload = Some plain) /\ (out = plain \/ out = o_compress o plain).
+Proof. exact relayed_request_is_verbatim. Qed.
+Print Assumptions C01_relayed_request_is_verbatim.
+
+(** What cannot be carried fails: decompression, decoding or encoding refused it. *)
+Theorem C01_failure_is_an_error : forall cx o was_compressed payload e,
+  advance_send cx o was_compressed payload = inr e ->
+  exists p, True /\ (o_decompress o payload = None \/ o_decode o p = None \/ (exists m, o_decode o p = Some m /\ o_encode o m = None)).
+Proof. exact request_failure_is_an_error. Qed.
+Print Assumptions C01_failure_is_an_error.
+
+(** Messages are cut out of the body exactly at their announced boundaries, in order: the first
+    message is the announced number of bytes after the first envelope, and reading goes on from
+    the byte after it. *)
+Theorem C01_message_boundaries : forall cx c u p comp u2,
+  cenv cx = Some c -> read_request_message cx u = MsgOk p comp u2 ->
+  exists env, decode_env c (ztake 5 (flat u)) = Some env /\
+              p = ztake (e_len env) (zdrop 5 (flat u)) /\ comp = e_compressed env /\
+              flat u2 = zdrop (e_len env) (zdrop 5 (flat u)).
+Proof.
+  intros cx c u p comp u2 Ec E. pose proof (read_enveloped_spec cx c u Ec) as S. cbv zeta in S. rewrite E in S.
+  destruct S as (_ & env & De & _ & _ & _ & Hp & Hc & Hf & _). exists env. auto.
+Qed.
+Print Assumptions C01_message_boundaries.
